@@ -15,7 +15,8 @@ P = {
          "case in the array dispatcher and the four policy classes reach distinct strategies; each strategy has the source-order signature of its "
          "policy (which array is appended in which order, fresh node keeping the dictionary vs in place, index-wise setAt bounded by both lengths "
          "then source tail); the dictionary loop stores merge(dest[k],src[k]) under k and clears only under replace after the emptiness return; "
-         "mergeValues recurses only when both sides are sub-configs; nested merges receive the caller's options. Value-level laws are not decided.",
+         "mergeValues recurses only when both sides are sub-configs; nested merges receive the caller's options; the copy every merged value goes "
+         "through (cfgSub.cpy) copies the named and the indexed part of a node on one path. Value-level laws are not decided.",
          TRUST + "A re-implementation of a strategy that no longer goes through fields.append/setAt is reported as undecided, not as a violation.",
          "§3 C01"),
  "C02": (True,
@@ -55,7 +56,8 @@ P = {
          "interface-kinded keys alike and names a key only after chasing the interface; (c) maps and structs hand every (name, value) pair to "
          "normalizeSetField and nothing else in the normalize family stores a named setting; that function parses the name with the configured "
          "separator, stores only where nothing non-nil is present, merges only object with object and reports every other collision as a duplicate; "
-         "(d) normalizeValue chases pointers and interfaces before it looks at kind or special type. Round-trip equality, numeric equality and "
+         "(d) normalizeValue chases pointers and interfaces before it looks at kind or special type; (e) the name a struct field is stored under is the "
+         "name part of its tag as written (only Split/index/TrimSpace between the tag and the name), as a map key is. Round-trip equality, numeric equality and "
          "idempotence over all trees and representations are runtime-value facts and are NOT decided (this property was planned as not applicable; "
          "the claim is limited to these necessary conditions, DESIGN.md section 8.9).",
          TRUST,
@@ -69,7 +71,8 @@ P = {
          "given; every kind accepted inline on the way in is accepted on the way out; the specially encoded types are exactly the extras table, "
          "tested before the numeric kinds on both sides and written/read by an inverse library pair; for each of the 27 reflect kinds the "
          "dispatches of normalizeValue, reifyMergeValue, reifyValue and doReifyPrimitive are simulated: the writer accepts every kind the property "
-         "names and the reader's converter accepts the value classes the writer produces; the cross-sign integer conversions have succeeding paths.",
+         "names and the reader's converter accepts the value classes the writer produces; the cross-sign integer conversions have succeeding paths and "
+         "their range guards admit the whole range of the destination (the extreme representable values pass).",
          TRUST + "Value equality after the round trip (number formatting and precision, pointer depth, nil vs empty, Duration text) is value-level and "
          "not decided; the class tables of handler functions and the inverse-pair table are frozen in the checker (unknown handlers are undecided).",
          "§3 C06"),
@@ -114,7 +117,7 @@ P = {
          "Decides the aliasing statement behind 'source and destination stay independent': for Merge/NewFrom/MustNewFrom the source parameter is "
          "in no mod set and flows into neither destination, options, result nor globals; every value stored into a node by the merge strategies, "
          "fields.append and the cpy implementations is allocation-fresh with no transitive reference into the function's source; every cpy returns "
-         "a deep copy; normalize* return values independent of the Go value they were built from. 'No shared mutable object exists after the merge' "
+         "a deep copy that copies the named and the indexed part of a node on one path; normalize* return values independent of the Go value they were built from. 'No shared mutable object exists after the merge' "
          "holds for all sources, policies and later histories at once. Not decided: what user code does with captured *Config values.",
          TRUST + "E1 blobs all objects reachable from a parameter (shallow/deep); parameters assumed not to alias at entry; immutable shared types (expressions, paths, metadata) are cut and their immutability is checked separately (R11c).",
          "§3 C10, §2 E1"),
@@ -170,8 +173,9 @@ P = {
          "sibling agreement of option pairs + CFG path rule on the child-options function (custom analyzer)",
          "Decides that XValues/FieldXValues install the same constant, that the constant reaches options.configValueHandling resp. the handling table, "
          "that every acyclic (feasible) path of fieldOptsOverride which returns the incoming options unchanged under a non-nil tree has established "
-         "tree == child or an array hop, and that the handling looked up is that of the key/index being merged. Necessary for 'exactly the named "
-         "subtree'; the merged values and wildcard semantics in full are not decided.",
+         "tree == child or an array hop, that the handling looked up is that of the key/index being merged, and that applying an Option writes no state "
+         "captured by the Option value (no memo, no captured tree installed into the options). Necessary for 'exactly the named subtree'; the merged "
+         "values and wildcard semantics in full are not decided.",
          TRUST,
          "§3 C16"),
  "C17": (True,
